@@ -68,6 +68,12 @@ def _models(name):
             # field / result names that are reserved words elsewhere (Python keywords): ordinary names in a command file
             yield "read-keyword-field", [("READ", [("InFileName", "input.csv"), ("InFieldName", "class")] + extra, None)], 0
             yield "read-keyword-renamed", [("READ", [("InFileName", "input.csv"), ("InFieldName", "A")] + extra, "yield")], 0
+            # the SAME field read twice (scripts pasted together from fragments), and two reads renamed to one name: the MPilot file obtained
+            # by the mapping defines one result twice - the EEMS 2.0 file fares alike
+            yield "read-twice", [("READ", [("InFileName", "input.csv"), ("InFieldName", "A")], None),
+                                 ("READ", [("InFileName", "input.csv"), ("InFieldName", "A")] + extra, None)], 1
+            yield "read-twice-one-name", [("READ", [("InFileName", "input.csv"), ("InFieldName", "A")] + extra, "Alpha"),
+                                          ("READ", [("InFileName", "input.csv"), ("InFieldName", "B")], "Alpha")], 1
         return
     fz = SIG.input_fuzz(target)
     ar = D.arity(target)
